@@ -306,6 +306,7 @@ func init() {
 			us = append(us, chunkUnits("C16", c16AsyncScenarios(tier), 10)...)
 			us = append(us, chunkUnits("C16", c16StoryScenarios(tier), 4)...)
 			us = append(us, chunkUnits("C16", c16ListenerSubsetScenarios(tier), 32)...)
+			us = append(us, programUnits("C16", c16NestedMaxDurationPrograms(tier), 50, 1)...)
 			return append(us, chunkUnits("C16", hedgeTimingScenarios("C16/hedge-timing", tier, "events"), 40)...)
 		},
 	})
